@@ -240,9 +240,12 @@ def main():
         'violations': len(uniq),
         'known_findings_hit': sum(knownhits.values()),
     }
-    if not a.replay:
+    if not a.replay and REPO == '/repo':
         os.makedirs(os.path.join(VERIF, 'evidence'), exist_ok=True)
         json.dump(ev, open(os.path.join(VERIF, 'evidence', prop + '.json'), 'w'), indent=1, default=str)
+    elif not a.replay:
+        # a demonstration run against a scratch copy (VERIF_REPO): never evidence about /repo
+        json.dump(ev, open(os.path.join(outdir, 'evidence.json'), 'w'), indent=1, default=str)
     print('%s tier=%s shards=%d states=%s transitions=%s evaluations=%s exhaustive=%s violations=%d known=%d wall=%.1fs' % (
         prop, tier, nsh, cov.get('states'), cov.get('transitions'), cov.get('evaluations'), cov['exhaustive'], len(uniq), sum(knownhits.values()), time.time() - t0), flush=True)
     if not reports and not violations:
